@@ -9,8 +9,11 @@ solvent is the molecule H(2-2d) D(2d) O at the molar volume of water at
 (real and imaginary parts), D2O_match must be the fraction at which solute and
 solvent agree, and fasta.Molecule must report the same numbers.
 In-process monitor: a wrapper on formulas._isotope_substitution (the body of
-Formula.replace) checks that every substitution keeps the cell volume and the
-number of atoms.
+Formula.replace; in a tree without that private function: on the public
+Formula.replace itself) checks that every substitution keeps the cell volume and
+the number of atoms.  It and the entry counters on the helpers nsf._D2O_slds /
+nsf.mix_values are optional instrumentation (skipped, noted and waived through
+anchor_missing.* when a tree does not have or does not use them).
 """
 import math
 
@@ -73,36 +76,27 @@ def setup(ctx):
     _state['mm'] = MassModel()
     _state['NA'] = pt.constants.avogadro_number
     _state['ctx'] = ctx
+    from collections import Counter
+    _state['unread'] = Counter()
+    from ..ref.neutron import private, watch_entry
     reach = Reach()
-    reach.watch(nsf._D2O_slds, 'nsf._D2O_slds').watch(nsf.mix_values, 'nsf.mix_values')
-    reach.watch(nsf.D2O_sld, 'nsf.D2O_sld').watch(nsf.D2O_match, 'nsf.D2O_match')
-    reach.watch(fasta.D2Omatch, 'fasta.D2Omatch').watch(fasta.Molecule.D2Osld, 'Molecule.D2Osld')
-    reach.watch(fasta.Molecule.__init__, 'Molecule.__init__')
-    if not hasattr(formulas._isotope_substitution, '_pvmon_original'):
-        original = formulas._isotope_substitution
-        reach.watch(original, 'formulas._isotope_substitution')
-
-        def monitored_substitution(compound, source, target, portion=1):
-            before = None
-            try:
-                if compound.density:
-                    before = (_mass_of_formula(compound), compound.density,
-                              sum(compound.atoms.values()))
-            except Exception:
-                before = None
-            result = original(compound, source, target, portion=portion)
-            if before is not None:
-                _replace_postcondition(before, result, source, target, portion)
-            return result
-        monitored_substitution._pvmon_original = original
-        formulas._isotope_substitution = monitored_substitution
+    # public entry points
+    watch_entry(ctx, reach, nsf.D2O_sld, 'nsf.D2O_sld')
+    watch_entry(ctx, reach, nsf.D2O_match, 'nsf.D2O_match')
+    watch_entry(ctx, reach, getattr(fasta, 'D2Omatch', None), 'fasta.D2Omatch')
+    watch_entry(ctx, reach, fasta.Molecule.D2Osld, 'Molecule.D2Osld')
+    watch_entry(ctx, reach, fasta.Molecule.__init__, 'Molecule.__init__', requirements=[])
+    # helpers behind them (private, or in no __all__ / documentation): optional evidence
+    watch_entry(ctx, reach, private(ctx, nsf, '_D2O_slds', ['reach.nsf._D2O_slds']), 'nsf._D2O_slds')
+    watch_entry(ctx, reach, private(ctx, nsf, 'mix_values', ['reach.nsf.mix_values']), 'nsf.mix_values')
+    _attach_replace_contract(ctx, reach, formulas)
     reach.start()
     _state['reach'] = reach
     # molecules of the fasta tables: every module-level dict of Molecule objects
     tables = {}
     for name, obj in sorted(vars(fasta).items()):
         if isinstance(obj, dict) and obj and all(isinstance(v, fasta.Molecule) for v in obj.values()) \
-                and name != 'CODE_TABLES':
+                and name != 'CODE_TABLES' and not name.startswith('_'):      # public data tables only
             tables[name] = obj
     _state['tables'] = tables
     # atom pools
@@ -114,6 +108,47 @@ def setup(ctx):
     special = [(z, a) for z, a in special
                if (pt.elements[z][a] if a else pt.elements[z]).neutron.b_c is not None]
     _state['pools'] = (bio, anyel, special)
+
+
+def _attach_replace_contract(ctx, reach, formulas):
+    """Postcondition "a substitution keeps the cell volume and the number of atoms" on the body of Formula.replace.
+    Its PRIVATE seat formulas._isotope_substitution is optional; in a tree without it the same postcondition is put
+    on the public method Formula.replace(source, target, portion=1).  Calls whose arguments cannot be read as
+    (compound, source, target, portion) are passed through un-judged and counted."""
+    from ..ref.neutron import private, tolerant, watch_entry
+
+    def judged(compound, source, target, portion, _call):
+        before = None
+        try:
+            if compound.density:
+                before = (_mass_of_formula(compound), compound.density, sum(compound.atoms.values()))
+        except Exception:
+            before = None
+        result = _call()
+        if before is not None:
+            _replace_postcondition(before, result, source, target, portion)
+        return result
+
+    if getattr(formulas, '_pvmon_c16_replace', False):
+        return
+    formulas._pvmon_c16_replace = True
+    original = private(ctx, formulas, '_isotope_substitution', ['reach.formulas._isotope_substitution'])
+    if original is not None:
+        watch_entry(ctx, reach, original, 'formulas._isotope_substitution')
+        formulas._isotope_substitution = tolerant(original, ('compound', 'source', 'target', 'portion'), judged,
+                                                  _state['unread'], 'contract.replace_postcondition')
+        _state['replace_seat'] = 'formulas._isotope_substitution'
+        return
+    method = getattr(formulas.Formula, 'replace', None)
+    if method is None:
+        from ..ref.neutron import anchor_missing
+        anchor_missing(ctx, 'Formula.replace', ['contract.replace_postcondition'])
+        _state['replace_seat'] = None
+        return
+    formulas.Formula.replace = tolerant(method, ('self', 'source', 'target', 'portion'), judged, _state['unread'],
+                                        'contract.replace_postcondition')
+    _state['replace_seat'] = 'Formula.replace'
+    ctx.note('replace() postcondition attached to the public method Formula.replace')
 
 
 def _replace_postcondition(before, result, source, target, portion):
@@ -141,6 +176,21 @@ def finish(ctx):
     if reach:
         reach.stop()
         reach.export(ctx)
+    # helpers behind the public entry points: evidence only when this tree does not go through them
+    from ..ref.neutron import anchor_missing, waive_if_bypassed
+    for name, v in _state.get('unread', {}).items():
+        ctx.count(name, v)
+    for label in ('nsf._D2O_slds', 'nsf.mix_values', 'formulas._isotope_substitution'):
+        waive_if_bypassed(ctx, 'reach.' + label, 'reach.nsf.D2O_sld', 'entry counter of the helper %s' % label)
+    waive_if_bypassed(ctx, 'reach.fasta.D2Omatch', 'reach.Molecule.D2Osld', 'entry counter of fasta.D2Omatch (called by Molecule.__init__ on the pinned tree)')
+    unread = ctx.counters.get('contract.replace_postcondition.unrecognised_call', 0)
+    if unread and not ctx.counters.get('contract.replace_postcondition', 0):
+        anchor_missing(ctx, 'replace() postcondition (seat: %s)' % _state.get('replace_seat'),
+                       ['contract.replace_postcondition'],
+                       why='met %d calls whose arguments it does not recognise and none it does' % unread)
+    else:
+        waive_if_bypassed(ctx, 'contract.replace_postcondition', 'reach.nsf.D2O_sld',
+                          'replace() postcondition (seat: %s)' % _state.get('replace_seat'))
     for label in ('nsf._D2O_slds', 'nsf.mix_values', 'nsf.D2O_sld', 'nsf.D2O_match', 'fasta.D2Omatch',
                   'Molecule.D2Osld', 'formulas._isotope_substitution'):
         ctx.require('reach.' + label, 10, 'the workload must reach %s' % label)
